@@ -102,4 +102,4 @@ def group_tail(rep, prog, rule):
             ok = False
             rep.bad(rule, key + "|no-tail", f.loc, "%s processes groups of %d destination rows "
                     "and nothing else: the last h %% %d rows are never written" % (f.name, N, N))
-    rep.floor(rule, "group-of-N row wrappers", n, 20)
+    rep.floor(rule, "group-of-N row wrappers", n, {"x86": 20, "x86-rayon": 20}.get(rep.cfg, 6))
